@@ -999,6 +999,8 @@ def check_faults(prop, tier, seed):
         # a tee one of whose children had its first step abandoned before it ran (a task cancelled before its first step)
         import check_c09
         fails += check_c09.abandoned_first_step_probe(rep)
+        # sources that are value-like objects (equal to each other, or unhashable): each is released on its own
+        fails += equal_sources_release(rep)
     finish_with_model(rep, prop, pairs, fails, proofs_ok)
     return rep.finish()
 
@@ -1088,11 +1090,16 @@ def equal_sources_release(rep):
     tools = {"zip": lambda s_: a.zip(*s_), "zip strict": lambda s_: a.zip(*s_, strict=True), "map": lambda s_: a.map(lambda *x: x, *s_),
              "zip_longest": lambda s_: a.zip_longest(*s_), "merge": lambda s_: a.merge(*s_), "chain": lambda s_: a.chain(*s_),
              "compress": lambda s_: a.compress(*s_[:2]), "chain.from_iterable": lambda s_: a.chain.from_iterable(s_)}
+    class PlainCursor(Cursor):
+        """value equality without a hash (like a plain dataclass): unhashable"""
+        __hash__ = None
     fails = 0
     for name, mk in tools.items():
         for k in (2, 3):
-            for take in (0, 1, 2):
-                srcs = [Cursor(3 + i) for i in range(k)]
+            for take in (0, 1, 2, 12, 13, 14):
+                cls_ = Cursor if take < 10 else PlainCursor
+                take = take % 12
+                srcs = [cls_(3 + i) for i in range(k)]
                 it = mk(srcs)
 
                 async def go():
@@ -1115,10 +1122,10 @@ def equal_sources_release(rep):
                     why = "sources %r not closed (positions %r, closes %r)" % (leaked, [c.pos for c in used], [c.closed for c in used]) if leaked else None
                 except BaseException as e:  # noqa
                     why = "failed: %r" % (e,)
-                rep.count(("equal-sources", name, k, take), True)
+                rep.count(("equal-sources", name, k, take, cls_.__name__), True)
                 if why:
                     fails += 1
-                    rep.violation("release:equal-sources", {"tool": name, "sources": k, "take": take, "why": why})
+                    rep.violation("release:equal-sources", {"tool": name, "sources": k, "take": take, "hashable": cls_ is Cursor, "why": why})
     return fails
 
 
